@@ -81,6 +81,9 @@ type Env struct {
 	BlockHookSaw    []string
 	BlockHookPause  int // block hook returns ErrPaused at this block index (1-based), 0 never
 	BlockHookErrAt  int
+	// Stack, when set, replaces the synchronous message stub by the real
+	// sending stack; what leaves is recorded through its Net.OnSent
+	Stack *kit.Stack
 	// OnGoOnline, when set, runs on the executor's goroutine right before the
 	// request's loader is switched online (first local miss)
 	OnGoOnline func()
@@ -183,6 +186,11 @@ func NewEnv(dag *kit.DAG, has []bool, workers int, maxLinksGlobal uint64) *Env {
 // --- peer handler
 
 func (e *Env) AllocateAndBuildMessage(p peer.ID, size uint64, fn func(*messagequeue.Builder)) {
+	if e.Stack != nil {
+		// the real sending stack (peer manager, message queues, allocator)
+		e.Stack.PMM.AllocateAndBuildMessage(p, size, fn)
+		return
+	}
 	b := messagequeue.NewBuilder(e.Ctx, messagequeue.Topic(len(e.Sent)))
 	fn(b)
 	m, _ := b.Build()
